@@ -21,7 +21,7 @@ for d in sorted(glob.glob('/verif/seeded/C*_*')):
     caught = {}
     for p in (props if allprops else [own]):
         env = dict(os.environ, VERIF_DIR=out)
-        r2 = subprocess.run(['/verif/bin/crngcheck', 'check', '-property', p, '-repo', wt], capture_output=True, text=True, env=env, cwd='/verif')
+        r2 = subprocess.run([os.environ.get('CRNG_BIN','/verif/bin/crngcheck'), 'check', '-property', p, '-repo', wt], capture_output=True, text=True, env=env, cwd='/verif')
         rules = sorted(set(re.findall(r': (?:violated|undecided) \[(C\d+\.R\d+)\]', r2.stdout + r2.stderr)))
         if rules:
             caught[p] = rules
